@@ -125,7 +125,7 @@ def outputs_variant(v, ec, fam):
     if v == 2:
         return [{"output_type": "execute_result", "execution_count": ecv, "metadata": {},
                  "data": {"text/plain": "<module.Foo at 0x7f3a2b1c9d8e>", "image/png": B64A, "image/gif": TINY_A,
-                          "application/vnd.Acme.Chart+xml": XML_A}}]
+                          "application/vnd.Acme.Chart+xml": XML_A, "text/HTML": "<b>first run</b>\n<i>same line</i>\n"}}]
     if v == 3:
         return [{"output_type": "stream", "name": "stdout", "text": "partial output\n"},
                 {"output_type": "error", "ename": "ValueError", "evalue": "bad value %d" % fam,
@@ -141,7 +141,8 @@ def outputs_variant(v, ec, fam):
     if v == 5:      # "re-run" of variant 2: pointer and image differ
         return [{"output_type": "execute_result", "execution_count": ecv, "metadata": {"collapsed": False},
                  "data": {"text/plain": "<module.Foo at 0x7f3a2b1c0000>", "image/png": B64B, "image/gif": TINY_B,
-                          "application/vnd.Acme.Chart+xml": XML_A.replace("bar", "pie")}}]
+                          "application/vnd.Acme.Chart+xml": XML_A.replace("bar", "pie"),
+                          "text/HTML": "<b>second run</b>\n<i>same line</i>\n"}}]
     if v == 6:
         return [{"output_type": "stream", "name": "stdout", "text": LONG_STREAM},
                 {"output_type": "display_data", "metadata": {},
@@ -536,7 +537,7 @@ def _oe_base_output(kind, j):
     if kind == "display":
         return {"output_type": "display_data", "metadata": {"isolated": True},
                 "data": {"text/plain": "repr %d line one\nline two\nline three\n" % j, "text/html": "<b>bold %d</b>" % j,
-                         "image/png": B64A}}
+                         "image/png": B64A, "image/SVG+xml": "<svg>\n<g>line two</g>\n</svg>\n"}}
     raise ValueError(kind)
 
 
@@ -554,6 +555,8 @@ def _oe_apply(cell, kinds, edits, listedit, tag):
                 o["evalue"] += " (%s)" % t
             else:
                 o["data"]["text/plain"] = o["data"]["text/plain"].replace("line two\n", "line two edited by %s\n" % t)
+                if "image/SVG+xml" in o["data"]:
+                    o["data"]["image/SVG+xml"] = o["data"]["image/SVG+xml"].replace("line two", "line two edited by %s" % t)
         elif ed == "rewrite":
             new = "completely different content written by %s\nnothing in common with before\n" % tag
             if kind == "stream":
